@@ -595,10 +595,10 @@ def wl_trig(ctx, idx, rng):
 def workloads(ctx):
     q = ctx.tier == "quick"
     base = len(COUNT_DECADES) * len(FRAC_KINDS) * len(OPERANDS)
-    return [("arith", base * (4 if q else 80), wl_arith), ("new", 480 * (1 if q else 20), wl_new),
-            ("inplace", 378 * (1 if q else 20), wl_inplace),
-            ("divmod", 600 if q else 20000, wl_divmod), ("near_multiple", 150 if q else 3000, wl_near_multiple),
-            ("trig", 160 if q else 3200, wl_trig)]
+    return [("arith", base * (12 if q else 80), wl_arith), ("new", 480 * (3 if q else 20), wl_new),
+            ("inplace", 378 * (3 if q else 20), wl_inplace),
+            ("divmod", 2400 if q else 20000, wl_divmod), ("near_multiple", 600 if q else 3000, wl_near_multiple),
+            ("trig", 480 if q else 3200, wl_trig)]
 
 
 def setup(ctx):
